@@ -362,8 +362,19 @@ func (vc *VC) storeComps(st *State, elem types.Type, arr, idx *Term, lo int, v V
 }
 
 // typingFact adds range facts for a loaded integer cell.
+// mentionsSpecBound: the term contains a quantifier-bound variable of a contract expression (named x!qN); facts about
+// such terms must not be added to the global assumption log.
+func mentionsSpecBound(t *Term) bool {
+	for _, s := range termSyms(t) {
+		if strings.Contains(s, "!q") {
+			return true
+		}
+	}
+	return false
+}
+
 func (vc *VC) typingFact(t *Term, elem types.Type, cp Comp, i int) {
-	if cp.Sort != SInt || t.IsConst() {
+	if cp.Sort != SInt || t.IsConst() || mentionsSpecBound(t) {
 		return
 	}
 	if kindOf(elem) == KInt {
@@ -379,6 +390,11 @@ func (vc *VC) typingFact(t *Term, elem types.Type, cp Comp, i int) {
 func (vc *VC) typingVal(v Val) {
 	if len(v.C) == 0 {
 		return
+	}
+	for _, c := range v.C {
+		if mentionsSpecBound(c) {
+			return
+		}
 	}
 	key := v.C[0].id
 	switch kindOf(v.T) {
